@@ -168,6 +168,10 @@ fn assemble_with_command(
 	let defs = assembly.defs.as_ref().unwrap();
 	let iterations_taken = assembly.iterations_taken.unwrap();
 
+	// Render every group before delivering any: the listing formats
+	// read the source files again, and a delivered file may replace one
+	let mut formatted_groups = Vec::new();
+
 	for output_group in &command.output_groups
 	{
 		if let Some(format) = output_group.format
@@ -180,17 +184,6 @@ fn assemble_with_command(
 				format);
 
 			#[cfg(hlorenzi_customasm_verif)]
-			crate::verif::emit("formatted", vec![
-				("print", crate::verif::V::B(output_group.printout)),
-				("file", match output_group.output_filename
-				{
-					Some(ref f) => crate::verif::V::S(f.clone()),
-					None => crate::verif::V::Null,
-				}),
-				("len", crate::verif::V::I(formatted.len() as i128)),
-			]);
-
-			#[cfg(hlorenzi_customasm_verif)]
 			crate::verif::emit("delivered", vec![
 				("sum", crate::verif::V::I(crate::verif::checksum(&formatted))),
 				("want", crate::verif::V::I(crate::verif::checksum(&format_output(
@@ -201,30 +194,46 @@ fn assemble_with_command(
 					format)))),
 			]);
 
-			if output_group.printout
-			{
-				if !command.quiet
-				{
-					println!("");
-				}
+			formatted_groups.push((output_group, formatted));
+		}
+	}
 
-				println!(
-					"{}",
-					String::from_utf8_lossy(&formatted));
-			}
-			else if let Some(ref output_filename) = output_group.output_filename
+	for (output_group, formatted) in &formatted_groups
+	{
+		#[cfg(hlorenzi_customasm_verif)]
+		crate::verif::emit("formatted", vec![
+			("print", crate::verif::V::B(output_group.printout)),
+			("file", match output_group.output_filename
 			{
-				if !command.quiet
-				{
-					println!("writing `{}`...", &output_filename);
-				}
+				Some(ref f) => crate::verif::V::S(f.clone()),
+				None => crate::verif::V::Null,
+			}),
+			("len", crate::verif::V::I(formatted.len() as i128)),
+		]);
 
-				fileserver.write_bytes(
-					report,
-					None,
-					&output_filename,
-					&formatted)?;
+		if output_group.printout
+		{
+			if !command.quiet
+			{
+				println!("");
 			}
+
+			println!(
+				"{}",
+				String::from_utf8_lossy(&formatted));
+		}
+		else if let Some(ref output_filename) = output_group.output_filename
+		{
+			if !command.quiet
+			{
+				println!("writing `{}`...", &output_filename);
+			}
+
+			fileserver.write_bytes(
+				report,
+				None,
+				&output_filename,
+				&formatted)?;
 		}
 	}
 
